@@ -55,8 +55,10 @@ LEVEL_TEXT = ('Coq theorems (closed under the global context) for EVERY event hi
               '(C07_line_addresses_its_record); URL, record id, checksum and date are the record\'s fields (C07_fields_agree); for every block that starts '
               'with (interim header blocks and) a header block of LF-terminated lines of any length, the status is the code of the final status line and the '
               'MIME type the token pair of the first Content-Type among its field lines (C07_status_mime_partial, C07_status_code_of_status_line).')
-LEVEL_NOTE = ('C07_status_mime_partial is partial: field lines are interpreted by the model of NameValueRecord.parse (unfolding, name normalisation), not by an '
+LEVEL_NOTE = ('Histories include failed, rolled-back appends followed by further records (see C05; non-vacuity C07_failed_append_nonvacuous; every run '
+              'drives two exchanges in flight where the first response append fails and the next record is the other response). '
+              'C07_status_mime_partial is partial: field lines are interpreted by the model of NameValueRecord.parse (unfolding, name normalisation), not by an '
               'independent RFC 7230 grammar; the model of get_http_header / parse_mimetype is evaluated against the real code byte for byte and the '
-              'implementation\'s CDX status / MIME are compared with the generated response header (multi-line, LF-only, folded, > 4096 bytes, interim 1xx, '
-              'token characters) on every run. Trusted: Coq kernel + vm_compute; the hand-written model and the harness.')
+              'implementation\'s CDX status / MIME are compared with the generated response header (multi-line, LF-only, folded, > 4096 bytes, interim 1xx - also interim and final '
+              'header blocks that exceed 32 KiB only together - token characters) on every run. Trusted: Coq kernel + vm_compute; the hand-written model and the harness.')
 TECHNIQUE = c05.TECHNIQUE
